@@ -19,6 +19,7 @@ their own ensemble's dynamics and two swaps must restore both original order seq
 """
 import importlib.util  # noqa: F401
 import itertools
+import re
 import types
 from fractions import Fraction
 
@@ -28,8 +29,8 @@ META = {
     "id": "C11",
     "level": "proof",
     "technique": "Coq theorems over a literal model of retis_swap_zero / quantis_swap_zero (stop-rule invariants, abstract reversible dynamics: one engine and two different engines, one per ensemble) + scripted-oracle lock-step of the extracted model vs the real functions with two distinguishable engine objects",
-    "text": "Unbounded theorems (any paths, interface values, length limits, engine frame streams, draws, energies) about an executable model of the two zero-swap moves over the current add_to_path stop rule: junction identity as frame identities and as order values (C11_swap_junction_frames, C11_swap_junction), full shape of an accepted swap and the converse sufficient conditions (C11_swap_accepted_shape, C11_swap_accepted_if), validity of both new paths (C11_swap_valid), lambda_-1 early rejection with no engine call and no draw (C11_lambda_m1_test, C11_lambda_m1_reject), QuanTIS energy rule u <= min(1,E) with the exponent's signs and the frames the four energies are read from (C11_quantis_accept_iff, C11_quantis_exponent), QuanTIS junction (C11_quantis_junction), and for an abstract deterministic time-reversible engine (state space X, step T, reversal R with R.R = id, R.T.R.T = id, ord.R = ord) that the swap back is accepted and restores both order sequences (C11_swap_twice_id, C11_swap_twice_restores). Which engine object does what is part of the model (every modelled propagate call names the object it is made on: E0 = engines[-1][0] for [0-], E1 = engines[0][0] for [0+]): an accepted swap runs backward on E0 and forward on E1, every frame of the new [0-] path but the shared point old[0+][1] is a frame of the E0 call's answer and every frame of the new [0+] path but the shared point old[0-][-2] one of the E1 call's (C11_swap_engines); QuanTIS calls E0, E1, E0, E1 (C11_quantis_engines, C11_quantis_junction). With TWO different deterministic dynamics (T0,R0) for [0-] and (T1,R1) for [0+] over one phase space (simulation.ensemble_engines): the streams are the answers of exactly the engines the calls are made on (C11_two_engines_calls), the new [0-] path is the backward T0-trajectory from old[0+][0] plus the shared point and the new [0+] path the shared point plus the forward T1-trajectory from old[0-][-1] (C11_two_engines_segments), and if old [0-] is a T0-trajectory and old [0+] a T1-trajectory the swap back is accepted and both order sequences are restored, assuming time-reversibility of the [0-] engine only (C11_swap_twice_id_two_engines, C11_swap_twice_restores_two_engines; one engine is the special case T0=T1, C11_one_engine_special_case). The model is tied to /repo by running the extracted model and the real select_shoot/retis_swap_zero/quantis_swap_zero on the same old paths, settings, engine streams, draws and energies (all valid [0-]/[0+] pairs over a small integer alphabet, limits incl. exact hits, lambda_minus_one on/off, wf high-acceptance swap, quantis with draws around the Metropolis threshold), always with two distinguishable engine objects whose identity is logged per call and per frame and compared with the model's, and by evaluating the property's statement on the implementation's outputs (incl. which engine produced which frames), including double swaps of the real functions with deterministic reversible integer engines: one dynamics for both ensembles and two different dynamics (one per ensemble; new paths must be trajectories of their own ensemble's dynamics, two swaps must restore both sequences; every retis swap of these also compared with the model).",
-    "note": "Trusted: Coq kernel; extraction (ExtrOcamlBasic) + OCaml driver; this harness (scripted engines built on plugins.engines.ScriptedEngine and the real add_to_path, scripted rgen, np.exp shim, canonicalisation). No axioms (every Print Assumptions is closed). exp is not modelled: its value E is computed by numpy exactly as the code does and handed to the model as the exact rational of that float; the exponent is compared exactly (dyadic energies/betas). -inf is represented in the model by an integer below every order value of the case. The order-value form of the junction assumes that an engine's first frame carries the order parameter of the phase point it was started from (propagate contract, C12); validity and reversibility theorems assume maxlength([0-]) <= maxlength([0+]) (one shared tis_set in infretis) and ordered interfaces. The swap never reads propagate's success flag, so it is insensitive to the add_to_path repair (C11_stop_rule_irrelevant). The QuanTIS double swap (one and two engines) is checked on the implementation only (no Coq theorem); reversibility of real MD engines is an assumption of the statement itself. Two engines: the Coq theorems allow engine-specific velocity reversals R0, R1 and need reversibility of the [0-] engine only (the [0+] engine is never run backward by the swap); the harness engines share one reversal (v -> -v) as real MD engines do. Which engine object calls dump_phasepoint (engine1 for 'second', engine0 for 'second_last' in the code) is not modelled: a dumped copy holds the same configuration whoever writes it. Engine identity in the lock-step is a label of the engine object (the prescribed orders of a call do not depend on it), in the double swaps it is a different dynamics. quantis_swap_zero has no lambda_-1 early exit: check_config rejects quantis together with lambda_minus_one.",
+    "text": "Unbounded theorems (any paths, interface values, length limits, engine frame streams, draws, energies) about an executable model of the two zero-swap moves over the current add_to_path stop rule: junction identity as frame identities and as order values (C11_swap_junction_frames, C11_swap_junction), full shape of an accepted swap and the converse sufficient conditions (C11_swap_accepted_shape, C11_swap_accepted_if), validity of both new paths, each below ITS OWN ensemble's length limit (C11_swap_valid; the two limits maxlength([0-]) and maxlength([0+]) are separate inputs of the model), a swap that cannot complete a new path below that path's own limit is rejected BTX / FTX (C11_swap_limit_reject), the variant that sizes the forward container of the new [0+] path with the [0-] limit accepts an incomplete [0+] path (C11_forward_segment_minus_limit_refuted; C11_variant_is_code_at_plus_limit ties the variant definition to the code), lambda_-1 early rejection with no engine call and no draw (C11_lambda_m1_test, C11_lambda_m1_reject), QuanTIS energy rule u <= min(1,E) with the exponent's signs and the frames the four energies are read from (C11_quantis_accept_iff, C11_quantis_exponent), QuanTIS junction (C11_quantis_junction) and lengths below both limits (C11_quantis_own_limits), and for an abstract deterministic time-reversible engine (state space X, step T, reversal R with R.R = id, R.T.R.T = id, ord.R = ord) that the swap back is accepted and restores both order sequences (C11_swap_twice_id, C11_swap_twice_restores). Which engine object does what is part of the model (every modelled propagate call names the object it is made on: E0 = engines[-1][0] for [0-], E1 = engines[0][0] for [0+]): an accepted swap runs backward on E0 and forward on E1, every frame of the new [0-] path but the shared point old[0+][1] is a frame of the E0 call's answer and every frame of the new [0+] path but the shared point old[0-][-2] one of the E1 call's (C11_swap_engines); QuanTIS calls E0, E1, E0, E1 (C11_quantis_engines, C11_quantis_junction). With TWO different deterministic dynamics (T0,R0) for [0-] and (T1,R1) for [0+] over one phase space (simulation.ensemble_engines): the streams are the answers of exactly the engines the calls are made on (C11_two_engines_calls), the new [0-] path is the backward T0-trajectory from old[0+][0] plus the shared point and the new [0+] path the shared point plus the forward T1-trajectory from old[0-][-1] (C11_two_engines_segments), and if old [0-] is a T0-trajectory and old [0+] a T1-trajectory the swap back is accepted and both order sequences are restored, assuming time-reversibility of the [0-] engine only (C11_swap_twice_id_two_engines, C11_swap_twice_restores_two_engines; one engine is the special case T0=T1, C11_one_engine_special_case). The model is tied to /repo by running the extracted model and the real select_shoot/retis_swap_zero/quantis_swap_zero on the same old paths, settings, engine streams, draws and energies (all valid [0-]/[0+] pairs over a small integer alphabet, limits incl. exact hits, INDEPENDENT limits for the two ensembles (every ordered pair (maxlength[0-], maxlength[0+]) of a grid needed-1 / needed / needed+1 / needed+2 / much larger around the lengths the two new paths need, for all 8x8 backward x forward stream patterns incl. new paths of the minimal 3 frames, retis and quantis), lambda_minus_one on/off, wf high-acceptance swap, quantis with draws around the Metropolis threshold), always with two distinguishable engine objects whose identity is logged per call and per frame and compared with the model's, and by evaluating the property's statement on the implementation's outputs (incl. which engine produced which frames), including double swaps of the real functions with deterministic reversible integer engines: one dynamics for both ensembles and two different dynamics (one per ensemble; new paths must be trajectories of their own ensemble's dynamics, two swaps must restore both sequences; every retis swap of these also compared with the model).",
+    "note": "Trusted: Coq kernel; extraction (ExtrOcamlBasic) + OCaml driver; this harness (scripted engines built on plugins.engines.ScriptedEngine and the real add_to_path, scripted rgen, np.exp shim, canonicalisation). No axioms (every Print Assumptions is closed). exp is not modelled: its value E is computed by numpy exactly as the code does and handed to the model as the exact rational of that float; the exponent is compared exactly (dyadic energies/betas). -inf is represented in the model by an integer below every order value of the case. The order-value form of the junction assumes that an engine's first frame carries the order parameter of the phase point it was started from (propagate contract, C12); validity, limit and reversibility theorems assume maxlength([0-]) <= maxlength([0+]) (one shared tis_set in infretis: equal limits) and ordered interfaces; for maxlength([0-]) > maxlength([0+]) retis_swap_zero accepts an incomplete [0-] path (the backward container is sized with the [0+] limit: C11_swap_valid_limit_order_refuted) and quantis_swap_zero measures the [0+] path against the [0-] limit (C11_quantis_limit_order_refuted): both are reported as KNOWN-FINDING for exactly these input classes (oracle suspended there, correspondence still compared), repair proposed in proposed_fixes/C11_zero_swap_own_limits.diff. The oracle is total: an exception, an exhausted engine or an answer outside the move's answer domain on an input whose outcome the statement fixes is reported with that input. The swap never reads propagate's success flag, so it is insensitive to the add_to_path repair (C11_stop_rule_irrelevant). The QuanTIS double swap (one and two engines) is checked on the implementation only (no Coq theorem); reversibility of real MD engines is an assumption of the statement itself. Two engines: the Coq theorems allow engine-specific velocity reversals R0, R1 and need reversibility of the [0-] engine only (the [0+] engine is never run backward by the swap); the harness engines share one reversal (v -> -v) as real MD engines do. Which engine object calls dump_phasepoint (engine1 for 'second', engine0 for 'second_last' in the code) is not modelled: a dumped copy holds the same configuration whoever writes it. Engine identity in the lock-step is a label of the engine object (the prescribed orders of a call do not depend on it), in the double swaps it is a different dynamics. quantis_swap_zero has no lambda_-1 early exit: check_config rejects quantis together with lambda_minus_one.",
     "design_ref": "4/C11",
 }
 LEVEL = "proof"
@@ -376,6 +377,10 @@ def run_impl(case, TapeEngine, shim):
     except (IndexError, AssertionError, TypeError) as e:
         raw["error"] = "raise"
         raw["exc"] = repr(e)
+    except Exception as e:                      # any other exception: an answer outside the modelled outcomes
+        raw["error"] = "raise"
+        raw["exc"] = repr(e)
+        raw["unexpected_exc"] = True
     finally:
         tis.ENGINES = {}
     # streams actually prescribed, as full frames for the model
@@ -398,11 +403,39 @@ def run_impl(case, TapeEngine, shim):
         evalue = Fraction(float(shim._real.exp(shim.exp_args[-1])))
     raw["exparg"], raw["evalue"] = exparg, evalue
     req = enc_request(case.quantis, enc_e, case.betas, enc_old, produced, case.draws, energies, evalue)
+    raw["bad_answer"] = None
     if raw["error"]:
         ans = f"ERR {raw['error']}"
     else:
-        ans = enc_answer(raw["accept"], raw["status"], rgen.used, raw["paths"], tape.calls, exparg)
+        raw["bad_answer"] = answer_domain_error(raw["accept"], raw["paths"], raw["status"])
+        if raw["bad_answer"]:
+            ans = f"BAD {raw['bad_answer']}"
+        else:
+            try:
+                ans = enc_answer(raw["accept"], raw["status"], rgen.used, raw["paths"], tape.calls, exparg)
+            except Exception as e:              # not encodable: non-integer order/weight, unknown config name ...
+                raw["bad_answer"] = f"answer cannot be encoded ({e!r})"
+                ans = f"BAD {raw['bad_answer']}"
     return ans, raw, req
+
+
+STATUSES = {"ACC", "BTX", "BTS", "0-L", "FTX", "FTS", "HAS", "QNE", "QLL", "QS0", "QS1", "QEA", "QR*", "QLR", "0+R"}
+
+
+def answer_domain_error(accept, paths, status):
+    """The move must answer (bool, [Path, Path], status string of the known set).  Returns a description
+    of what is outside that domain, or None."""
+    from infretis.classes.path import Path
+    if not isinstance(accept, (bool,)) and type(accept).__name__ != "bool_":
+        return f"accept is {accept!r} (not a bool)"
+    if not isinstance(status, str) or status not in STATUSES:
+        return f"status {status!r} is not one of the move's status codes"
+    if not isinstance(paths, (list, tuple)) or len(paths) != 2 or not all(isinstance(p, Path) for p in paths):
+        return f"paths is not a pair of Path objects: {paths!r}"[:200]
+    for name, p in zip(("[0-]", "[0+]"), paths):
+        if p.status is not None and p.status != "" and p.status not in STATUSES:
+            return f"new {name} path has status {p.status!r}"
+    return None
 
 
 def enc_request(quantis, enc_e, betas, enc_old, produced, draws, energies, evalue):
@@ -485,9 +518,220 @@ def engines_oracle(quantis, accepted, p0, p1, calls):
     return None
 
 
+def stop_prefix(orders, left, right):
+    """the frames a run yields when only the interfaces stop it: up to and including the first one strictly
+    beyond [left, right]; None when no frame of the tape is"""
+    for k, o in enumerate(orders):
+        if o < left or o > right:
+            return list(orders[:k + 1])
+    return None
+
+
+def expected_new_paths(case):
+    """C11's own description of the two new paths (order sequences) of a case with valid old paths and honest
+    engines: the backward run from old[0+][0] / the forward run from old[0-][-1] (quantis: from the one-step
+    frames) continued until the ensemble's own interfaces stop it, joined with the shared point.  An entry is
+    None when that run never leaves the interfaces on the tape: the path cannot be completed under any limit."""
+    o0, o1 = list(case.old0), list(case.old1)
+    left = LM1 if case.lm1 else float("-inf")
+    if case.quantis:
+        s0, s1, bs, fs = (case.script[k][1] for k in range(4))
+        back = stop_prefix([o1[0]] + list(bs), left, L0)
+        forw = stop_prefix([s1[0]] + list(fs), L0, LN)
+        new0 = None if back is None else list(reversed(back)) + [s0[0]]
+        new1 = None if forw is None else [o0[-2]] + forw
+    else:
+        bs, fs = case.script[0][1], case.script[1][1]
+        back = stop_prefix([o1[0]] + list(bs), left, L0)
+        forw = stop_prefix([o0[-1]] + list(fs), L0, LN)
+        new0 = None if back is None else list(reversed(back)) + [o1[1]]
+        new1 = None if forw is None else [o0[-2]] + forw
+    return new0, new1
+
+
+def limits_domain(case, raw):
+    """Cases on which the statement fixes the outcome from the two length limits alone: valid old paths,
+    honest engines answering every call, no wire fencing, limits >= 2; quantis: energies present, both
+    shooting points strictly left of lambda_0, both one-step runs cross lambda_0 (and stay below lambda_N),
+    the energy rule passes."""
+    ncalls = 4 if case.quantis else 2
+    if len(case.script) < ncalls or any(f is not None or r is None for f, r in case.script[:ncalls]):
+        return False
+    if "wf" in case.moves or min(case.maxlen0, case.maxlen1) < 2:
+        return False
+    o0, o1 = list(case.old0), list(case.old1)
+    if not (valid_minus(o0, case.lm1) and valid_plus(o1)):
+        return False
+    if not case.quantis:
+        return True
+    s0, s1 = case.script[0][1], case.script[1][1]
+    en = case.energies
+    if case.v0 is None or case.v1 is None or case.v0[-2] is None or case.v1[0] is None:
+        return False
+    if not en or len(en) < 2 or not en[0] or not en[1] or en[0][0] is None or en[1][0] is None:
+        return False
+    if not (o1[0] < L0 and o0[-2] < L0 and len(s0) >= 1 and len(s1) >= 1 and s0[0] > L0 and L0 < s1[0] <= LN):
+        return False
+    if not case.draws:
+        return False
+    if case.accept_all:
+        return True
+    if raw.get("evalue") is None:
+        # the implementation did not reach exp: decide the energy rule from the energies (dyadic, exact)
+        import math
+        x = (Fraction(case.betas[0]) * (Fraction(case.v0[-2]) - Fraction(en[0][0]))
+             - Fraction(case.betas[1]) * (Fraction(en[1][0]) - Fraction(case.v1[0])))
+        return x >= 0 or Fraction(case.draws[0]) <= Fraction(math.exp(float(x)))
+    return Fraction(case.draws[0]) <= min(Fraction(1), raw["evalue"])
+
+
+def expected_by_limits(case, new0, new1):
+    """status the statement prescribes: a new path that cannot be completed below ITS OWN limit rejects the
+    swap (BTX for [0-], which is built first, FTX for [0+]); otherwise the swap is accepted."""
+    if new0 is None or len(new0) >= case.maxlen0:
+        return "BTX"
+    if new1 is None or len(new1) >= case.maxlen1:
+        return "FTX"
+    return "ACC"
+
+
+KNOWN_RETIS_LIMIT_ORDER = (
+    "retis_swap_zero with maxlength([0-]) > maxlength([0+]): the container of the backward run that builds the new [0-] path is "
+    "sized with the [0+] limit (tis.py: path_tmp = path_old1.empty_path(maxlen=maxlen1 - 1)); a run cut off by the [0+] limit gives "
+    "a [0-] path of maxlength([0+]) frames, which is below its own limit and gets ACC: the swap is accepted with an incomplete "
+    "new [0-] path (first frame still inside the interfaces), and a [0-] path that cannot be completed below its limit is not "
+    "rejected BTX.  Witness: limits 12/5, old paths 3 1 3 / 1 3 1, backward run 1 1 1 1 1 3, forward run 3 1 -> accepted with "
+    "new [0-] = 1 1 1 1 3.  Not reachable through infretis' own set-up (all ensembles share one tis_set, equal limits).  "
+    "Theorem C11_swap_valid_limit_order_refuted; one-line repair: proposed_fixes/C11_zero_swap_own_limits.diff")
+KNOWN_QUANTIS_LIMIT_ORDER = (
+    "quantis_swap_zero with maxlength([0-]) != maxlength([0+]): the move reads the [0-] limit for both paths (tis.py: "
+    "maxlen1 = ens_set0[\"tis_set\"][\"maxlength\"]); with maxlength([0-]) > maxlength([0+]) it accepts a new [0+] path that is "
+    "not below the [0+] limit, with maxlength([0-]) < maxlength([0+]) it rejects FTX a new [0+] path that is below it.  Witness: "
+    "limits 8/4, old paths 3 1 3 / 1 3 1, one-step frames 3 / 3, forward run 3 1 -> accepted with new [0+] = 1 3 3 1 (4 frames).  "
+    "Not reachable through infretis' own set-up (one shared tis_set).  Theorem C11_quantis_limit_order_refuted; one-line repair: "
+    "proposed_fixes/C11_zero_swap_own_limits.diff")
+
+
+def known_limit_class(case, new0, new1):
+    """the two recorded findings about unequal limits, as input classes (exactly the inputs on which the code
+    deviates from expected_by_limits on the unmodified tree)"""
+    inf = float("inf")
+    n0 = inf if new0 is None else len(new0)
+    n1 = inf if new1 is None else len(new1)
+    ml0, ml1 = case.maxlen0, case.maxlen1
+    if not case.quantis:
+        return "retis" if (ml0 > ml1 and n0 > ml1) else None
+    return "quantis" if (ml0 != ml1 and n0 < ml0 and min(ml0, ml1) <= n1 < max(ml0, ml1)) else None
+
+
+def limits_oracle(case, raw):
+    """'both valid in their ensembles', each path measured against ITS OWN ensemble's length limit, and 'a swap
+    that cannot complete a path within that ensemble's limit is rejected with the corresponding status'.
+    Total: an exception, an exhausted engine or an answer outside the move's answer domain on such an input is
+    a finding.  Returns (error string or None, known class or None)."""
+    if not limits_domain(case, raw):
+        return None, None
+    new0, new1 = expected_new_paths(case)
+    if (new0 is not None and len(new0) < 3) or (new1 is not None and len(new1) < 3):
+        return None, None
+    # a tape that never leaves the interfaces must outlast every container the limits allow (else the harness,
+    # not the move, ends the run)
+    k = 2 if case.quantis else 0
+    for new, (_, rest) in ((new0, case.script[k]), (new1, case.script[k + 1])):
+        if new is None and 1 + len(rest) < max(case.maxlen0, case.maxlen1):
+            return None, None
+    exp = expected_by_limits(case, new0, new1)
+    cls = known_limit_class(case, new0, new1)
+    ml0, ml1 = case.maxlen0, case.maxlen1
+    var = "quantis" if case.quantis else "retis"
+    lim = f"limits maxlength[0-]={ml0}, maxlength[0+]={ml1}"
+    need = (f"new [0-] path {new0 if new0 is not None else 'never leaves the interfaces'}"
+            f"{'' if new0 is None else f' ({len(new0)} frames)'}, new [0+] path "
+            f"{new1 if new1 is not None else 'never leaves the interfaces'}{'' if new1 is None else f' ({len(new1)} frames)'}")
+    inside0 = (LM1 if case.lm1 else float("-inf"), L0)
+
+    def dev():
+        if raw["error"]:
+            what = (f"raised {raw.get('exc')}" if raw["error"] == "raise"
+                    else "asked an engine for more frames than its length limit allows (the tape ended before the run was stopped)")
+            return f"{var} zero swap with {lim}: the move {what} on valid old paths {list(case.old0)} / {list(case.old1)}; expected {exp}: {need}"
+        if raw["bad_answer"]:
+            return f"{var} zero swap with {lim}: answer outside the move's answer domain: {raw['bad_answer']}"
+        acc, status = bool(raw["accept"]), raw["status"]
+        p0, p1 = raw["paths"]
+        g0, g1 = orders_of(p0), orders_of(p1)
+        if acc:
+            # validity of the accepted paths, each against its own limit
+            if not (g0 and (g0[0] < inside0[0] or g0[0] > inside0[1])):
+                return (f"{var} zero swap with {lim}: ACCEPTED with an incomplete new [0-] path {g0}: its first frame is still inside the "
+                        f"[0-] interfaces (the backward run was cut off after {len(g0) - 1} frames); {need}")
+            if not (g1 and (g1[-1] < L0 or g1[-1] > LN)):
+                return (f"{var} zero swap with {lim}: ACCEPTED with an incomplete new [0+] path {g1}: its last frame is still inside "
+                        f"[lambda_0, lambda_N] = [{L0}, {LN}] (the forward run was cut off after {len(g1) - 1} frames, below the [0+] limit {ml1}); {need}")
+            if not len(g0) < ml0:
+                return f"{var} zero swap with {lim}: ACCEPTED with a new [0-] path of {len(g0)} frames, not below the [0-] limit {ml0}: {g0}"
+            if not len(g1) < ml1:
+                return f"{var} zero swap with {lim}: ACCEPTED with a new [0+] path of {len(g1)} frames, not below the [0+] limit {ml1}: {g1}"
+            if not all(inside0[0] <= o <= inside0[1] for o in g0[1:-1]) or not g0[-1] >= L0:
+                return f"{var} zero swap with {lim}: ACCEPTED new [0-] path {g0} is not a [0-] path (interior outside the interfaces or end not on the right)"
+            if not all(L0 <= o <= LN for o in g1[1:-1]) or not g1[0] <= L0:
+                return f"{var} zero swap with {lim}: ACCEPTED new [0+] path {g1} is not a [0+] path (interior outside the interfaces or start not on the left)"
+            if exp != "ACC":
+                which = "[0-]" if exp == "BTX" else "[0+]"
+                return (f"{var} zero swap with {lim}: ACCEPTED although the new {which} path cannot be completed below the {which} limit "
+                        f"(expected rejection {exp}); {need}; returned {g0} / {g1}")
+            if g0 != [float(x) for x in new0] or g1 != [float(x) for x in new1]:
+                return f"{var} zero swap with {lim}: accepted paths {g0} / {g1} are not the complete paths the runs give; {need}"
+            if status != "ACC" or p0.status != "ACC" or p1.status != "ACC":
+                return f"{var} zero swap with {lim}: accepted but statuses are {status} / {p0.status} / {p1.status}"
+            return None
+        if exp == "ACC":
+            return (f"{var} zero swap with {lim}: REJECTED with status {status} although both new paths are valid and below their own "
+                    f"limits (two swaps cannot restore the originals): {need}")
+        if status != exp:
+            which = "[0-]" if exp == "BTX" else "[0+]"
+            return (f"{var} zero swap with {lim}: the new {which} path cannot be completed below the {which} limit, the swap must be "
+                    f"rejected with {exp} but the status is {status}; {need}")
+        if exp == "BTX" and p0.status != "BTX":
+            return f"{var} zero swap with {lim}: rejected BTX but the new [0-] path carries status {p0.status}"
+        if exp == "FTX" and p1.status != "FTX":
+            return f"{var} zero swap with {lim}: rejected FTX but the new [0+] path carries status {p1.status}"
+        return None
+
+    d = dev()
+    if d is None:
+        return None, None
+    if cls is not None:
+        return None, cls
+    return d, None
+
+
 def oracle(case, raw):
-    """C11 evaluated on the implementation's outputs.  Returns an error string or None."""
-    if raw["error"]:
+    """C11 evaluated on the implementation's outputs.  Returns an error string (always naming the two length
+    limits of the case) or None; raw["known_class"] is set when the only deviation is one of the recorded
+    unequal-limit findings."""
+    err = _oracle(case, raw)
+    if err and "maxlength[0-]=" not in err:
+        err += f" (limits maxlength[0-]={case.maxlen0}, maxlength[0+]={case.maxlen1})"
+    return err
+
+
+def _oracle(case, raw):
+    raw["known_class"] = None
+    lerr, cls = limits_oracle(case, raw)
+    if lerr:
+        return lerr
+    raw["known_class"] = cls
+    if cls is None:
+        # the input class alone (also for inputs outside limits_domain, e.g. tapes shorter than a limit)
+        try:
+            cls = known_limit_class(case, *expected_new_paths(case))
+        except (IndexError, TypeError, ValueError):
+            cls = None
+    if raw["error"] or raw["bad_answer"]:
+        if raw.get("unexpected_exc") or raw["bad_answer"]:
+            what = raw["bad_answer"] or f"raised {raw.get('exc')}"
+            return f"answer outside the move's answer domain: the move {what}"
         return None
     acc, status = raw["accept"], raw["status"]
     p0, p1 = raw["paths"]
@@ -502,7 +746,6 @@ def oracle(case, raw):
             return f"[0-] path ending on the left must be rejected as 0-L without propagation (status {status}, {tape.ncalls} propagate calls)"
         return None
     both_valid = valid_minus(o0, case.lm1) and valid_plus(o1)
-    same_limits = case.maxlen0 == case.maxlen1
     if acc:
         n0, n1 = orders_of(p0), orders_of(p1)
         # junction
@@ -530,15 +773,15 @@ def oracle(case, raw):
         if err:
             return err
         # validity
-        ml0 = case.maxlen0
-        ml1 = case.maxlen0 if case.quantis else case.maxlen1
-        if not (3 <= len(n0) < ml0 and 3 <= len(n1) < ml1):
-            return f"accepted paths with lengths {len(n0)}, {len(n1)} outside [3, limit) for limits {ml0}, {ml1}"
+        ml0, ml1 = case.maxlen0, case.maxlen1          # each path against ITS OWN ensemble's limit
+        if cls is None and not (3 <= len(n0) < ml0 and 3 <= len(n1) < ml1):
+            return (f"accepted paths with lengths {len(n0)}, {len(n1)} outside [3, limit) for limits maxlength[0-]={ml0}, "
+                    f"maxlength[0+]={ml1}: {n0} / {n1}")
         s0, e0, _, _ = p0.check_interfaces(list(raw["e0"]["interfaces"]))
         if not case.lm1 and ("L" in (s0, e0)):
             return f"accepted [0-] path starts/ends on the left: {n0}"
         honest = all(s[0] is None for s in case.script)
-        if both_valid and honest and (same_limits or case.quantis):
+        if both_valid and honest and cls is None:
             if e0 != "R" or s0 not in (("L", "R") if case.lm1 else ("R",)):
                 return f"accepted [0-] path {n0} has start/end {s0}/{e0}"
             if not all(left <= o <= L0 for o in n0[1:-1]):
@@ -688,6 +931,64 @@ def gen_retis_grid(ctx, rng):
         cases.append(Case(lm1=lm1, maxlen0=8, old0=(3, 1, 3), old1=(1, 3, 1), script=[(4, [1, 3]), (1, [3, 1])]))
         cases.append(Case(lm1=lm1, maxlen0=8, old0=(3, 1, 3), old1=(1, 3, 1), script=[(1, [1, 3]), (6, [3, 1])]))
         ctx.dist("retis degenerate", 4)
+    return cases
+
+
+BIG_LIMIT = 15      # "much larger": above every needed length, below the 15 frames of the never-crossing tapes
+
+
+def limit_grid(n0, n1):
+    """limits around the lengths n0 / n1 the two new paths need (a path of n frames is accepted iff n < limit,
+    so the smallest sufficient limit is n + 1): n - 1, n (exact hit), n + 1 (just enough), n + 2, and one much
+    larger; for a run that never leaves the interfaces a small, a medium and the large limit."""
+    g = {BIG_LIMIT}
+    for n in (n0, n1):
+        g |= {3, 8} if n is None else {n - 1, n, n + 1, n + 2}
+    return sorted(x for x in g if 2 <= x <= BIG_LIMIT)
+
+
+def gen_limits(ctx, rng):
+    """INDEPENDENT length limits for [0-] and [0+]: every ordered pair (maxlen0, maxlen1) of the grid around the
+    lengths the two new paths need, for every backward x forward stream pattern (new paths of 3 frames = the
+    minimum included), retis and quantis, lambda_minus_one on/off."""
+    cases = []
+    pairs = {False: [((3, 1, 3), (1, 3, 1)), ((L0, -1, 1, 3), (L0, L0, 6))],
+             True: [((3, 1, 3), (1, 3, 1)), ((-1, 1, 3), (1, LN, 3, 1))]}
+    qpairs = {False: [((3, 1, 3), (1, 3, 1)), ((L0, -1, 1, 3), (1, LN, 6))],
+              True: [((3, 1, 3), (1, 3, 1))]}
+
+    def tally(kind, c, new0, new1):
+        order = "<" if c.maxlen0 < c.maxlen1 else (">" if c.maxlen0 > c.maxlen1 else "=")
+        ctx.dist(f"{kind} limit grid maxlen0{order}maxlen1")
+        ctx.dist(f"{kind} limit grid expected {expected_by_limits(c, new0, new1)}")
+        if (new0 is not None and len(new0) == 3) or (new1 is not None and len(new1) == 3):
+            ctx.dist(f"{kind} limit grid with a 3-frame new path")
+
+    for lm1 in (False, True):
+        for a, b in pairs[lm1]:
+            for bs in BACK_STREAMS:
+                for fs in FORW_STREAMS:
+                    base = dict(lm1=lm1, old0=a, old1=b, script=[(None, bs), (None, fs)])
+                    new0, new1 = expected_new_paths(Case(maxlen0=BIG_LIMIT, **base))
+                    g = limit_grid(None if new0 is None else len(new0), None if new1 is None else len(new1))
+                    for ml0 in g:
+                        for ml1 in g:
+                            c = Case(maxlen0=ml0, maxlen1=ml1, direct=(ml0 + ml1) % 2 == 0, **base)
+                            cases.append(c)
+                            tally("retis", c, new0, new1)
+        for a, b in qpairs[lm1]:
+            for bs in BACK_STREAMS:
+                for fs in FORW_STREAMS:
+                    base = dict(quantis=True, lm1=lm1, old0=a, old1=b, v0=[0.0] * len(a), v1=[0.5] * len(b),
+                                script=[(None, [3]), (None, [3]), (None, bs), (None, fs)],
+                                energies=[[0.25, 0.0], [0.5, 0.0], None, None], draws=(0.5,), betas=(1.0, 1.0))
+                    new0, new1 = expected_new_paths(Case(maxlen0=BIG_LIMIT, **base))
+                    g = limit_grid(None if new0 is None else len(new0), None if new1 is None else len(new1))
+                    for ml0 in g:
+                        for ml1 in g:
+                            c = Case(maxlen0=ml0, maxlen1=ml1, direct=(ml0 + ml1) % 2 == 0, **base)
+                            cases.append(c)
+                            tally("quantis", c, new0, new1)
     return cases
 
 
@@ -930,8 +1231,11 @@ def run_double_swap(ctx, VerletEngine, ds_log, quantis, lm1, names, starts, maxl
     own ensemble's dynamics; after two swaps: both original order sequences are back.
     ds_log: list collecting [request, implementation answer, description, oracle failed?] of every retis
     swap for the comparison with the extracted model.
+    maxlen: one limit for both ensembles, or a pair (maxlength of [0-], maxlength of [0+]).
     Returns (list of (kind, message) of the statement's clauses that fail, evaluated?)."""
     import infretis.core.tis as tis
+    ml0, ml1 = (maxlen, maxlen) if isinstance(maxlen, int) else (int(maxlen[0]), int(maxlen[1]))
+    mlmax = max(ml0, ml1)
     from infretis.classes.path import Path
     from infretis.classes.system import System
     world = {"states": {}, "ncalls": 0, "streams": [], "calls": []}
@@ -942,17 +1246,17 @@ def run_double_swap(ctx, VerletEngine, ds_log, quantis, lm1, names, starts, maxl
     betas = (1.0, 0.5 if two else 1.0)
     eng0 = VerletEngine(world, F0, vf0, beta=betas[0], eid=0)
     eng1 = VerletEngine(world, F1, vf1, beta=betas[1], eid=1)
-    e0, e1 = ensembles(lm1, ("sh", "sh"), maxlen, maxlen, None, accept_all, quantis)
+    e0, e1 = ensembles(lm1, ("sh", "sh"), ml0, ml1, None, accept_all, quantis)
     rgen = ScriptRng([0.0] * 8)
     e0["rgen"] = rgen
     e1["rgen"] = ScriptRng(())
     left = LM1 if lm1 else float("-inf")
-    line0 = verlet_line(F0, starts[0], 3 * maxlen)
+    line0 = verlet_line(F0, starts[0], 3 * mlmax)
     xs0 = [s[0] for s in line0]
     if two:
-        line1 = verlet_line(F1, starts[1], 3 * maxlen)
+        line1 = verlet_line(F1, starts[1], 3 * mlmax)
         xs1 = [s[0] for s in line1]
-        c0, c1 = cut_minus(xs0, left, lm1, maxlen), cut_plus(xs1, left, maxlen)
+        c0, c1 = cut_minus(xs0, left, lm1, ml0), cut_plus(xs1, left, ml1)
         if not c0 or not c1:
             return [], False
         st0, st1 = line0[c0[0]:c0[1] + 1], line1[c1[0]:c1[1] + 1]
@@ -975,7 +1279,7 @@ def run_double_swap(ctx, VerletEngine, ds_log, quantis, lm1, names, starts, maxl
                     k += 1
                 if k >= len(xs0) or k - (j - 1) + 1 < 3:
                     continue
-                if j - i + 1 >= maxlen or k - j + 2 >= maxlen:
+                if j - i + 1 >= ml0 or k - j + 2 >= ml1:
                     continue
                 found = (i, j, k)
                 break
@@ -984,8 +1288,8 @@ def run_double_swap(ctx, VerletEngine, ds_log, quantis, lm1, names, starts, maxl
         i, j, k = found
         st0, st1 = line0[i:j + 1], line0[j - 1:k + 1]
 
-    def build(name_, states, vf):
-        p = Path(maxlen=maxlen)
+    def build(name_, states, vf, ml):
+        p = Path(maxlen=ml)
         for n_, s in enumerate(states):
             sy = System()
             sy.order = [float(s[0])]
@@ -999,14 +1303,14 @@ def run_double_swap(ctx, VerletEngine, ds_log, quantis, lm1, names, starts, maxl
         p.weight = 1.0
         return p
 
-    old0 = build("old0", st0, vf0)
-    old1 = build("old1", st1, vf1)
+    old0 = build("old0", st0, vf0, ml0)
+    old1 = build("old1", st1, vf1, ml1)
     hist = [(orders_of(old0), orders_of(old1))]
     cur0, cur1 = old0, old1
     fn = tis.quantis_swap_zero if quantis else tis.retis_swap_zero
     who = (f"reversible engines F0={names[0]} for [0-] / F1={names[1]} for [0+], states {starts[0]} / {starts[1]}" if two
            else f"reversible engine {names[0]}, start {starts[0]}")
-    who += f", lm1={lm1}, quantis={quantis}, maxlength={maxlen}"
+    who += f", lm1={lm1}, quantis={quantis}, limits maxlength[0-]={ml0}, maxlength[0+]={ml1}"
     errs = []
     log0 = len(ds_log) if ds_log is not None else 0
 
@@ -1031,6 +1335,15 @@ def run_double_swap(ctx, VerletEngine, ds_log, quantis, lm1, names, starts, maxl
             err = trajectory_error(world, eng0, eng1, quantis, n0, n1)
             if err:
                 errs.append(("not a trajectory", f"{who}: swap {step + 1} of {hist[-1]}: {err}"))
+            g0, g1 = orders_of(n0), orders_of(n1)
+            if not quantis or ml0 <= ml1:      # quantis reads the [0-] limit for both paths: recorded finding for ml0 > ml1
+                if not (len(g0) < ml0 and len(g1) < ml1):
+                    errs.append(("not below its own limit", f"{who}: swap {step + 1} of {hist[-1]} accepted paths of {len(g0)} / {len(g1)} frames: {g0} / {g1}"))
+            if ml0 <= ml1:                     # retis sizes the backward container with the [0+] limit: recorded finding for ml0 > ml1
+                if not (g0[0] < left or g0[0] > L0):
+                    errs.append(("incomplete path", f"{who}: swap {step + 1} of {hist[-1]} accepted an incomplete new [0-] path {g0} (first frame inside the interfaces)"))
+                if not (g1[-1] < L0 or g1[-1] > LN):
+                    errs.append(("incomplete path", f"{who}: swap {step + 1} of {hist[-1]} accepted an incomplete new [0+] path {g1} (last frame inside [{L0}, {LN}])"))
         err = engines_oracle(quantis, acc, n0, n1, calls)
         if err:
             errs.append(("wrong engine", f"{who}: swap {step + 1} of {hist[-1]}: {err}"))
@@ -1044,7 +1357,7 @@ def run_double_swap(ctx, VerletEngine, ds_log, quantis, lm1, names, starts, maxl
     if hist[2] != hist[0]:
         errs.append(("not restored", f"{who}: swapping twice gave {hist[2]} instead of the original {hist[0]} (intermediate {hist[1]})"))
     if not errs:
-        ctx.dist(f"double swap {'two engines ' if two else ''}{'quantis' if quantis else 'retis'} lm1={int(lm1)}")
+        ctx.dist(f"double swap {'two engines ' if two else ''}{'quantis' if quantis else 'retis'} lm1={int(lm1)}{'' if ml0 == ml1 else ' unequal limits'}")
     return done(True)
 
 
@@ -1073,22 +1386,31 @@ def run(ctx):
     tis.np = shim
     try:
         cases = []
+        cases += gen_limits(ctx, rng)
         cases += gen_retis_grid(ctx, rng)
         cases += gen_retis(ctx, rng, 5 if quick else 6, 1 if quick else 2, 12000 if quick else 150000)
         cases += expand_wf(ctx, gen_wf(ctx, rng, 0), TapeEngine, shim)
         cases += gen_quantis(ctx, rng, 5 if quick else 6, 1500 if quick else 12000)
 
         reqs, metas = [], []
+        known_seen = {}
         for c in cases:
             ans, raw, req = run_impl(c, TapeEngine, shim)
             err = oracle(c, raw)
             reqs.append(req)
             metas.append((ans, err, c))
+            if raw["known_class"]:
+                known_seen[raw["known_class"]] = known_seen.get(raw["known_class"], 0) + 1
             var = "quantis" if c.quantis else "retis"
             if not raw["error"]:
                 ctx.dist(f"{var} status {raw['status']}")
             else:
                 ctx.dist(f"{var} status <{raw['error']}>")
+        if known_seen.get("retis"):
+            ctx.known(KNOWN_RETIS_LIMIT_ORDER)
+        if known_seen.get("quantis"):
+            ctx.known(KNOWN_QUANTIS_LIMIT_ORDER)
+        ctx.cov["known_limit_order_cases"] = dict(known_seen)
         outs = runner.run(reqs)
         corr_fail = 0
         oracle_fail, corr_bad = [], []
@@ -1106,7 +1428,7 @@ def run(ctx):
         ctx.cov["oracle_failures"] = len(oracle_fail)
         seen_msgs = set()
         for _, req, mo, io, err, c in oracle_fail:
-            kind = err.split(":")[0][:60]
+            kind = re.sub(r"[-\d.,\[\] ]+", " ", err)[:90]        # the message without its numbers: one replay per kind of failure
             if kind in seen_msgs or len(seen_msgs) >= 4:
                 continue
             seen_msgs.add(kind)
@@ -1135,7 +1457,7 @@ def run(ctx):
         for names, starts in jobs:
             for quantis in (False, True):
                 for lm1 in (False, True):
-                    for maxlen in (40, 12):
+                    for maxlen in (40, 12) + (() if quantis else ((12, 40), (9, 14))):
                         errs, evaluated = run_double_swap(ctx, VerletEngine, ds_log, quantis, lm1, names, starts, maxlen)
                         if evaluated:
                             nds += 1
@@ -1177,7 +1499,9 @@ def run(ctx):
     ctx.cov["rule"] = ("lock-step: [0-] paths over alphabet {-1,0,1,2,3} and [0+] paths over {1,2,3,5,6} (interfaces lambda_-1=0, lambda_0=2, lambda_N=5), "
                        "lengths 3..%d, all/sampled pairs (see pair_sampling) x seeded choice of backward/forward stream pattern and length limit "
                        "(limits chosen around the resulting lengths: exact hits included; 20%% unequal limits); a full grid of 8x8 stream patterns x all limits x "
-                       "lambda_minus_one on/off on representative pairs; degenerate inputs (empty/short paths, missing streams, dishonest first frames); "
+                       "lambda_minus_one on/off on representative pairs; limit grid: for 2+2 (retis) and 2+1 (quantis) old pairs x lambda_minus_one x 8x8 stream patterns "
+                       "every ordered pair (maxlength[0-], maxlength[0+]) from {n-1, n, n+1, n+2 for the needed lengths n of the two new paths (3 frames = minimum included)} + {15}, "
+                       "outcome fixed by the statement (each path against its own limit: ACC / BTX / FTX and the exact complete paths); degenerate inputs (empty/short paths, missing streams, dishonest first frames); "
                        "wf/ss moves with interface_cap absent/4/5 and the draw on a grid around the ratio; quantis with dyadic energies, three beta pairs, "
                        "draws on a grid around min(1,E), accept_all on/off.  A case is distinct by its request line; all exercise a modelled branch. "
                        "Every case runs with two distinguishable engine objects (identity logged per call and per frame, compared with the model's c_eng and "
@@ -1186,7 +1510,7 @@ def run(ctx):
                        "(a) one dynamics for both engine objects (4 kick tables), initial pairs cut from the engine's own trajectory; (b) two different "
                        "dynamics, F0 for the [0-] engine and F1 != F0 for the [0+] engine (ordered pairs of 5 kick tables), the [0-] path cut from an "
                        "F0-trajectory and the [0+] path from an F1-trajectory (seeded states); each with retis/quantis, lambda_minus_one on/off, "
-                       "maxlength 40/12; oracle per swap: engine identities, new paths are trajectories of their own ensemble's dynamics; after two "
+                       "maxlength 40/12 and, retis, unequal limits 12/40 and 9/14; oracle per swap: accepted paths complete and below their own limits,  engine identities, new paths are trajectories of their own ensemble's dynamics; after two "
                        "swaps both order sequences restored; every retis swap also compared with the extracted model." % (5 if quick else 6))
     ctx.cov["correspondence"] = {"compared": len(reqs) + corr_ds["compared"], "disagreements": corr_fail + corr_ds["disagreements"],
                                  "scripted lock-step": {"compared": len(reqs), "disagreements": corr_fail},
@@ -1197,7 +1521,9 @@ def run(ctx):
     ctx.assumptions += ["orders, interfaces, weights are integer-valued floats; energies/betas dyadic (float arithmetic exact)",
                         "System reduced to (order[0], config tag, vel_rev, vpot); Path attributes generated/path_number/weights not compared",
                         "-inf represented in the model by an integer below every order value of the case",
-                        "validity and double-swap oracles are evaluated for valid old paths and equal length limits (one shared tis_set in infretis)",
+                        "validity, limit and double-swap oracles are evaluated for valid old paths and honest engines, each new path against its own ensemble's limit; "
+                        "suspended on exactly the two recorded input classes with maxlength([0-]) > maxlength([0+]) (retis: backward run longer than the [0+] limit) / "
+                        "maxlength([0-]) != maxlength([0+]) (quantis: new [0+] length between the two limits), see KNOWN-FINDING",
                         "two-engine double swap: the old [0-] path is a trajectory of the [0-] engine and the old [0+] path one of the [0+] engine (as in a simulation, where each path was generated in its own ensemble); both engines share phase space, configurations, order parameter and velocity reversal"]
 
 
@@ -1232,14 +1558,16 @@ def replay(doc):
             names, starts = tuple(rp["forces"]), tuple(tuple(s) if s is not None else None for s in rp["starts"])
         else:                       # replays written before the two-engine scenarios
             names, starts = (rp["force"], rp["force"]), (tuple(rp["start"]), None)
-        print("oracle:", run_double_swap(ctx, VerletEngine, None, rp["quantis"], rp["lm1"], names, starts, rp["maxlen"]))
+        ml = rp["maxlen"] if isinstance(rp["maxlen"], int) else tuple(rp["maxlen"])
+        print("oracle:", run_double_swap(ctx, VerletEngine, None, rp["quantis"], rp["lm1"], names, starts, ml))
         return 0
     if rp.get("kind") == "ds_lockstep":
         d = rp["setup"]
         log = []
         ctx = common.Ctx("C11", "quick", 0)
         starts = tuple(tuple(s) if s is not None else None for s in d["starts"])
-        print("oracle:", run_double_swap(ctx, VerletEngine, log, False, d["lm1"], tuple(d["names"]), starts, d["maxlen"]))
+        ml = d["maxlen"] if isinstance(d["maxlen"], int) else tuple(d["maxlen"])
+        print("oracle:", run_double_swap(ctx, VerletEngine, log, False, d["lm1"], tuple(d["names"]), starts, ml))
         r = common.Runner("c11")
         for req, io, dd, _ in log:
             print(f"swap {dd['swap']}: implementation now answers:", io)
